@@ -17,6 +17,9 @@ type planStep struct {
 	Reply    tq.EncoderDecoder // nil: no reply
 	Next     bool              // register a continuation (the planner itself)
 	UseWrite bool              // reply through Response.Write with a hand-built header instead of Reply
+	// First, when set, is replied before Reply (used for "first reply cannot be
+	// sent, the handler falls back to another one").
+	First tq.EncoderDecoder
 }
 
 // planner is a scripted Handler: per session id a list of steps, consumed one
@@ -52,6 +55,11 @@ func (p *planner) Handle(resp tq.Response, req tq.Request) {
 	p.mu.Unlock()
 	if st.Next {
 		resp.Next(p)
+	}
+	if st.First != nil {
+		if _, err := resp.Reply(st.First); err == nil {
+			return // it could be sent after all: that was the reply
+		}
 	}
 	if st.Reply != nil {
 		resp.Reply(st.Reply)
